@@ -402,7 +402,14 @@ impl FileSpec {
             })
             .filter(|path| {
                 // infix filter must pass
-                let stem = path.file_stem().unwrap(/* CANNOT FAIL*/).to_string_lossy();
+                // without suffix, a dot belongs to the name, it does not separate an extension
+                let stem = if o_suffix.is_some() {
+                    path.file_stem()
+                } else {
+                    path.file_name()
+                }
+                .unwrap(/* CANNOT FAIL*/)
+                .to_string_lossy();
                 let infix_start = if fixed_name_part.is_empty() {
                     0
                 } else {
